@@ -221,6 +221,46 @@ def _writers_package(ctx):
                              '(found %d)' % inside, rule='C17.3')
 
 
+def _zk_read_local(func, text):
+    """text is an expression rooted at a local of func that holds what was
+    read from ZooKeeper (bound, alone or as the first element of a tuple
+    target, to zkutils.get / get_with_metadata / get_default / zkclient.get),
+    whatever the local is called."""
+    try:
+        expr = ast.parse(text, mode='eval').body
+    except SyntaxError:
+        return False
+    while True:
+        if isinstance(expr, (ast.Subscript, ast.Attribute)):
+            expr = expr.value
+        elif isinstance(expr, ast.Call) and K.is_meth(
+                expr, 'get', 'decode', 'split', 'partition', 'strip'):
+            expr = K.recv(expr)     # data.get('host'), data.decode()...
+        else:
+            break
+    if not isinstance(expr, ast.Name):
+        return False
+    found = False
+    for sub in K.walk_no_nested(func.node):
+        if not isinstance(sub, ast.Assign) or len(sub.targets) != 1:
+            continue
+        tgt = sub.targets[0]
+        hit = (isinstance(tgt, ast.Name) and tgt.id == expr.id) or (
+            isinstance(tgt, ast.Tuple) and tgt.elts and
+            isinstance(tgt.elts[0], ast.Name) and
+            tgt.elts[0].id == expr.id)
+        if not hit:
+            continue
+        val = sub.value
+        if isinstance(val, ast.Call) and K.callee_text(val).split('.')[-1] \
+                in ('get', 'get_with_metadata', 'get_default') and (
+                    'zk' in K.callee_text(val)):
+            found = True
+        else:
+            return False
+    return found
+
+
 def check(ctx):
     index = ctx.index
     if ctx.tier == 'thorough':
@@ -545,8 +585,9 @@ def check(ctx):
                             len(key[2]) == 2:
                         other = [t for t, _c in key[2]
                                  if t != 'self.hostname'][0]
-                        read = 'data' in other or 'zkutils.get(' in other \
-                            or 'zkclient.get(' in other
+                        read = 'zkutils.get(' in other or \
+                            'zkclient.get(' in other or \
+                            _zk_read_local(func, other)
                         if read and 'startswith' not in other:
                             return True
                 return False
